@@ -148,6 +148,8 @@ type runner struct {
 	c        *lib.Ctx
 	sandboxN int
 	perSig   map[string]int
+	hist     []string // ops of the current history so far (nil: stateless op)
+	inHist   bool
 }
 
 func (g *runner) do(op string) (string, bool) {
@@ -181,6 +183,10 @@ func (g *runner) run(p *pkt, tag string, badmac bool) string {
 	if !ok {
 		return ans
 	}
+	replay := append(append([]string{}, g.hist...), op)
+	if g.inHist {
+		g.hist = replay
+	}
 	c.Count("case:" + tag)
 	o := last
 	c.Count("outcome:" + o.kind)
@@ -193,7 +199,7 @@ func (g *runner) run(p *pkt, tag string, badmac bool) string {
 		g.perSig[sig]++
 		c.Count("fail:" + sig)
 		if g.perSig[sig] <= 8 {
-			c.Fail(sig, what, []string{op}, detail)
+			c.Fail(sig, what, replay, detail)
 		}
 	}
 	if o.extra > 0 {
@@ -246,7 +252,7 @@ func (g *runner) run(p *pkt, tag string, badmac bool) string {
 				map[string]any{"answer": ans})
 		}
 		// authenticated reply iff verified request; the client must be able to verify it
-		verified := p.mock == 1 && p.hasAu && len(p.auth) == 28 && p.l4 == "udp" && p.mac != "err" && p.mac != "-" &&
+		verified := (p.mock == 1 || p.mode == "srvkeys") && p.hasAu && len(p.auth) == 28 && p.l4 == "udp" && p.mac != "err" && p.mac != "-" &&
 			lib.Hex(p.auth[12:]) == p.mac && beU32(p.auth) == spiClient && p.auth[4] == 0
 		switch {
 		case verified && o.replyMAC != "ok":
@@ -270,7 +276,7 @@ func (g *runner) run(p *pkt, tag string, badmac bool) string {
 		if p.dp == endhost {
 			bad = append(bad, "forwarded-to-endhost-port")
 		}
-		if p.mode == "srv" && p.dp == svcPort {
+		if p.mode != "disp" && p.dp == svcPort {
 			bad = append(bad, "own-service-port")
 		}
 		if !strings.HasSuffix(ans, "same=1") {
@@ -292,6 +298,7 @@ func beU32(b []byte) uint32 {
 func gen(c *lib.Ctx) {
 	g := &runner{c: c}
 	genAuthFuncs(c)
+	c.Comment("reset stateless ops")
 	genMalformed(g, c.Rand.Fork("malformed"), c.Scale(80, 400))
 	genNoMock(g, c.Rand.Fork("nomock"), c.Scale(150, 1500))
 	genServe(g, c.Rand.Fork("serve"), c.Scale(1500, 15000))
@@ -299,6 +306,7 @@ func gen(c *lib.Ctx) {
 	genPorts(g, c.Rand.Fork("ports"), c.Scale(800, 7000))
 	genSCMP(g, c.Rand.Fork("scmp"), c.Scale(500, 5000))
 	genDispatcher(g, c.Rand.Fork("disp"), c.Scale(300, 3000))
+	genKeyHistories(g, c.Rand.Fork("keys"), c.Scale(60, 600))
 	killChildren()
 }
 
@@ -666,4 +674,128 @@ func genDispatcher(g *runner, r *lib.Rand, n int) {
 		finish(p)
 		g.run(p, fmt.Sprintf("disp:dp=%s", portClass(p.dp)), false)
 	}
+}
+
+// withAuthKey adds a client-SPI authenticator whose MAC is computed under the given key.
+func withAuthKey(p *pkt, key []byte) {
+	p.e2e, p.hasAu = 1, true
+	p.auth = make([]byte, 28)
+	p.auth[0], p.auth[1], p.auth[2], p.auth[3], p.auth[4] = byte(spiClient>>24), byte(spiClient>>16&0xff), byte(spiClient>>8&0xff), byte(spiClient&0xff), 0
+	if m, err := p.macUnder(key); err == nil {
+		copy(p.auth[12:], m)
+	}
+}
+
+func randHost(r *lib.Rand, prefix byte) (int, []byte) {
+	if r.Bool() {
+		return 0, []byte{10, prefix, byte(r.U64()), byte(1 + r.Intn(250))}
+	}
+	return 3, append([]byte{0xfd, prefix}, r.Bytes(14)...)
+}
+
+// genKeyHistories: listener with real-derivation (non-mock) keys, reached under several SCION
+// destination host addresses. One history = one client IA, one source socket, one listener
+// socket (hence one listener goroutine and one DRKey fetcher): honest request to host A,
+// request to host B with a MAC under A's key, honest request to B, then the same from other
+// client hosts and back to A. The key the listener verifies under must be the key of the
+// *addressed* host, whatever was served before.
+func genKeyHistories(g *runner, r *lib.Rand, n int) {
+	c := g.c
+	failHist := func(sig, what string, detail map[string]any) {
+		if g.perSig == nil {
+			g.perSig = map[string]int{}
+		}
+		g.perSig[sig]++
+		c.Count("fail:" + sig)
+		if g.perSig[sig] <= 8 {
+			c.Fail(sig, what, g.hist, detail)
+		}
+	}
+	for i := 0; i < n; i++ {
+		c.Comment(fmt.Sprintf("history keys %d", i))
+		g.inHist, g.hist = true, nil
+		sock := []string{"svc", "eh"}[r.Intn(2)]
+		hop := r.Intn(2)
+		cliIA := 0x0001ff0000000000 | r.U64()&0xffffff
+		srvIA := 0x0002ff0000000000 | r.U64()&0xffff
+		var hosts [3]struct {
+			t int
+			a []byte
+		}
+		for j := range hosts {
+			hosts[j].t, hosts[j].a = randHost(r, byte(2+j))
+		}
+		ct, ca := randHost(r, 1)
+		pathKind := []int{0, 1, 1, 2}[r.Intn(4)]
+		mk := func(dst int) *pkt {
+			p := basePkt(r)
+			p.mode, p.mock, p.sock, p.hop = "srvkeys", 0, sock, hop
+			p.sia, p.dia = cliIA, srvIA
+			p.st, p.sa = ct, ca
+			p.dt, p.da = hosts[dst].t, hosts[dst].a
+			pickPath(r, p, pathKind)
+			return p
+		}
+		keyOf := func(p *pkt, dst int) []byte {
+			k, err := hostHostKey(p.dia, p.sia, hosts[dst].a, p.sa)
+			if err != nil {
+				panic(err)
+			}
+			return k
+		}
+		honest := func(dst int, tag string) {
+			p := mk(dst)
+			withAuthKey(p, keyOf(p, dst))
+			finish(p)
+			g.run(p, "keys:honest:"+tag, false)
+			if last.kind == "sandbox" || last.kind == "" {
+				return
+			}
+			if last.kind != "reply" {
+				failHist("C13:honest-request-rejected", "request with a MAC under the key of the addressed host was not served",
+					map[string]any{"outcome": last.kind, "step": tag})
+			} else if last.replyMAC != "ok" {
+				failHist("C13:reply-wrong-host-key", "reply authenticator does not verify under the key of the addressed host",
+					map[string]any{"reply_mac": last.replyMAC, "step": tag})
+			}
+		}
+		wrong := func(dst, keyDst int, tag string) {
+			p := mk(dst)
+			withAuthKey(p, keyOf(p, keyDst))
+			finish(p)
+			g.run(p, "keys:wrong-host-key:"+tag, true)
+			if last.kind == "reply" {
+				failHist("C13:wrong-host-key-served", "request whose MAC was computed under another host's key was served",
+					map[string]any{"step": tag, "reply_mac_under_addressed_host_key": last.replyMAC})
+			}
+		}
+		a, b := 0, 1
+		if r.Bool() {
+			a, b = 1, 0
+		}
+		honest(a, "first")
+		wrong(b, a, "after-other-host")
+		honest(b, "second-host")
+		if r.Chance(60) {
+			// another client host of the same IA, third server host, and back
+			ct, ca = randHost(r, 1)
+			wrong(a, b, "other-client-host")
+			honest(a, "back-to-first")
+			honest(2, "third-host")
+			wrong(2, a, "third-host")
+		}
+		if r.Chance(30) {
+			// plain bad MAC and no authenticator under real keys
+			p := mk(b)
+			withAuthKey(p, keyOf(p, b))
+			p.auth[12+r.Intn(16)] ^= byte(1 << r.Intn(8))
+			finish(p)
+			g.run(p, "keys:badmac", true)
+			q := mk(a)
+			finish(q)
+			g.run(q, "keys:noauth", false)
+		}
+		g.inHist, g.hist = false, nil
+	}
+	c.Comment("reset")
 }
